@@ -446,9 +446,13 @@ func (broker *Broker) recover() (send []sts.Hashed, err error) {
 			break
 		}
 		broker.info("STARTUP: Processing server response ...")
+		stopNow := false
 		for _, f := range polled {
 			if broker.shouldStopNow() {
-				return
+				// What was confirmed (and released) so far still has to
+				// reach the cache file
+				stopNow = true
+				break
 			}
 			cached := cache.Get(f.GetName())
 			switch {
@@ -492,6 +496,9 @@ func (broker *Broker) recover() (send []sts.Hashed, err error) {
 		// Make sure changes get persisted after the batch is processed
 		if err = broker.Conf.Cache.Persist(); err != nil {
 			broker.error(err.Error())
+		}
+		if stopNow {
+			return
 		}
 	}
 	broker.info(fmt.Sprintf("STARTUP: Recovery done (%d files to be recovered)", len(send)))
